@@ -89,6 +89,8 @@ def rewrite(txt, keep_pub=False):
     # display-only statement: `<v>.iter().for_each(|e| { crate::display_error(e); });`
     txt = re.sub(r"(?s)\b\w+\.iter\(\)\.for_each\(\|(\w+)\|\s*\{\s*crate::display_error\(\1\);\s*\}\);", "", txt)
     txt = re.sub(r"(?s)\blog::(trace|debug|info|warn|error)!\s*\((?:[^()]|\((?:[^()]|\([^()]*\))*\))*\)\s*;", "", txt)
+    # a logging call as the (unit-valued) tail expression of a block: `{ log::info!(..) }` -> `{ }`
+    txt = re.sub(r"(?s)\blog::(trace|debug|info|warn|error)!\s*\((?:[^()]|\((?:[^()]|\([^()]*\))*\))*\)(?=\s*\})", "", txt)
     return txt
 
 
@@ -115,8 +117,74 @@ def _match_paren(text, i):
     raise ExtractError("unbalanced parens")
 
 
-def msg_rule(txt):
-    """message-text expressions are replaced by the opaque msg(): `format!(..)` and `"literal".into()`"""
+HEX_PREFIX_RE = re.compile(r'^(?:\\\n\s*)?\{[A-Za-z_0-9]*:#X\}: ')
+
+
+def _fmt_shape(args_txt):
+    """shape of a `format!` call from its literal: True iff the rendered text starts with `{<arg>:#X}: `, i.e.
+    with `0x<UPPERCASE HEX>: ` - the form the error sorter's regex `^0x(?<mem_pos>[0-9A-F]+)` parses"""
+    m = re.match(r'\s*"((?:[^"\\]|\\.)*)"', args_txt, re.S)
+    if not m:
+        return False
+    return bool(HEX_PREFIX_RE.match(m.group(1)))
+
+
+def _split_top(args_txt):
+    """split a macro argument list at top-level commas (string literals, brackets and parentheses respected)"""
+    parts, depth, cur, i, n = [], 0, [], 0, len(args_txt)
+    while i < n:
+        c = args_txt[i]
+        if c == '"':
+            j = i + 1
+            while j < n and args_txt[j] != '"':
+                j += 2 if args_txt[j] == "\\" else 1
+            cur.append(args_txt[i:j + 1])
+            i = j + 1
+            continue
+        if c in "([{":
+            depth += 1
+        elif c in ")]}":
+            depth -= 1
+        if c == "," and depth == 0:
+            parts.append("".join(cur))
+            cur = []
+        else:
+            cur.append(c)
+        i += 1
+    if "".join(cur).strip():
+        parts.append("".join(cur))
+    return [p.strip() for p in parts]
+
+
+def _fmt_lead_expr(args_txt):
+    """the expression rendered by the leading `{..:#X}` directive of a format! call: a named argument
+    (`name = expr`), a captured identifier, or the first positional argument; None if there is no such directive"""
+    parts = _split_top(args_txt)
+    if not parts:
+        return None
+    m = re.match(r'^"(?:\\\n\s*)?\{([A-Za-z_0-9]*):#[Xx]\}', parts[0], re.S)
+    if not m:
+        return None
+    name = m.group(1)
+    rest = parts[1:]
+    if name == "" or name.isdigit():
+        pos = [a for a in rest if not re.match(r"^[A-Za-z_][A-Za-z_0-9]*\s*=[^=]", a)]
+        k = int(name) if name else 0
+        return pos[k] if k < len(pos) else None
+    for a in rest:
+        mm = re.match(r"^" + re.escape(name) + r"\s*=\s*(.*)$", a, re.S)
+        if mm:
+            return mm.group(1).strip()
+    return name
+
+
+def msg_rule(txt, shaped=False):
+    """message-text expressions are replaced by the opaque msg(): `format!(..)` and `"literal".into()`.
+    With `"msg_rule": "at"` the expression rendered by the leading `{..:#X}` directive is kept as well:
+    `opaque_msg_at(flag, <expr>)`.
+    With shaped=True (`"msg_rule": "shaped"`), `format!("<lit>", ..)` becomes `opaque_msg_shaped(true|false)`:
+    the flag says whether the literal starts with an upper-case hexadecimal offset directive (see _fmt_shape);
+    literal messages (`"..".into()`, `"..".to_string()`) become opaque_msg_shaped(false)."""
     out = []
     i = 0
     while True:
@@ -127,13 +195,24 @@ def msg_rule(txt):
         s = i + m.start()
         e = _match_paren(txt, i + m.end() - 1)
         out.append(txt[i:s])
-        out.append("opaque_msg()")
+        if shaped == "at":
+            a = txt[i + m.end():e - 1]
+            lead = _fmt_lead_expr(a)
+            flag = "true" if _fmt_shape(a) else "false"
+            out.append(f"opaque_msg_at({flag}, {lead})" if lead else f"opaque_msg_shaped({flag})")
+        elif shaped:
+            out.append("opaque_msg_shaped(%s)" % ("true" if _fmt_shape(txt[i + m.end():e - 1]) else "false"))
+        else:
+            out.append("opaque_msg()")
         i = e
         m2 = re.match(r"\s*\.into\(\)", txt[i:])  # format!(..).into()
         if m2:
             i += m2.end()
     txt = "".join(out)
-    txt = re.sub(r'"(?:[^"\\]|\\.)*"\s*\.into\(\)', "opaque_msg()", txt)
+    lit = "opaque_msg_shaped(false)" if shaped else "opaque_msg()"
+    txt = re.sub(r'"(?:[^"\\]|\\.)*"\s*\.into\(\)', lit, txt)
+    if shaped:
+        txt = re.sub(r'"(?:[^"\\]|\\.)*"\s*\.to_string\(\)', lit, txt)
     return txt
 
 
@@ -194,7 +273,11 @@ def extract_item(e):
         # a statement sequence (fragment of a larger body, e.g. inside a thread closure): from the anchor up to
         # and including the end anchor, both unique
         ea = e["end_anchor"]
-        if t.count(ea) != 1:
+        if e.get("end_first"):
+            # the end anchor is the first occurrence after the start anchor (e.g. the `.expect(..);` closing a statement)
+            if t.find(ea, s) < 0:
+                raise ExtractError(f"lost anchor: `{ea}` not found after `{anchor}` in {e['file']}")
+        elif t.count(ea) != 1:
             raise ExtractError(f"lost anchor: `{ea}` found {t.count(ea)} times in {e['file']}")
         end = t.index(ea, s) + len(ea)
         item = rewrite(t[s:end], e.get("keep_pub", False))
@@ -208,7 +291,7 @@ def extract_item(e):
                 raise ExtractError(f"lost anchor for annotation: `{ins[k]}` in {e['key']}")
             item = item.replace(ins[k], (ins["text"] + "\n" + ins[k]) if k == "before" else (ins[k] + "\n" + ins["text"] + "\n"))
         if e.get("msg_rule"):
-            item = msg_rule(item)
+            item = msg_rule(item, {"shaped": True, "at": "at"}.get(e.get("msg_rule"), False))
         return item
     if e.get("kind", "fn") == "const":
         end = t.index(";", s) + 1
@@ -241,7 +324,7 @@ def extract_item(e):
             raise ExtractError(f"lost anchor for annotation: `{ins['after']}` in {e['key']}")
         item = item.replace(ins["after"], ins["after"] + "\n" + ins["text"] + "\n")
     if e.get("msg_rule"):
-        item = msg_rule(item)
+        item = msg_rule(item, {"shaped": True, "at": "at"}.get(e.get("msg_rule"), False))
     if e.get("kind", "fn") == "fn":
         b = item.index("{")
         # find the body's brace: first '{' after the signature's closing paren / return type.
@@ -298,7 +381,7 @@ def build_unit(u, outdir):
         marker = "//@EXTRACT " + e["key"]
         if tpl.count(marker) != 1:
             raise ExtractError(f"template {u['template']}: marker {marker} not found exactly once")
-        tpl = tpl.replace(marker, "// ---- extracted from " + e["file"] + " (anchor `" + e["anchor"] + "`)\n" + extract_item(e))
+        tpl = tpl.replace(marker, "// ---- extracted from " + e["file"] + " (anchor `" + " ".join(e["anchor"].split()) + "`)\n" + extract_item(e))
     path = outdir + "/" + u["id"] + ".rs"
     open(path, "w").write(tpl)
     return path
@@ -373,7 +456,23 @@ def run_units(us, log=print):
                         if m:
                             loc = os.path.basename(m.group(1)) + ":" + m.group(2)
                             fn = enclosing_fn(spans, int(m.group(2)))
-                        fails.append({"desc": first + (" in fn " + fn if fn else (" in " + ",".join(bad_fns) if bad_fns else "")), "loc": loc, "raw": blk[:1500]})
+                        # the failed clause: source line marked `failed this postcondition` / `failed precondition`
+                        # (read back from the unit file: diagnostics truncate long lines), else the error line itself
+                        clause = ""
+                        src_lines = open(path).read().splitlines()
+                        bl = blk.splitlines()
+                        for k in range(len(bl) - 1):
+                            if re.search(r"failed (this postcondition|precondition|this invariant)|this loop invariant", bl[k + 1]) or \
+                               re.search(r"failed (this postcondition|precondition)", bl[k]):
+                                mm = re.match(r"^\s*(\d+)\s*\|", bl[k])
+                                if mm and int(mm.group(1)) <= len(src_lines):
+                                    clause = src_lines[int(mm.group(1)) - 1].strip()
+                                    break
+                        if not clause and m and int(m.group(2)) <= len(src_lines):
+                            clause = src_lines[int(m.group(2)) - 1].strip()
+                        tags = sorted(set(re.findall(r"\[(C\d\d)\]", clause)))
+                        fails.append({"desc": first + (" in fn " + fn if fn else (" in " + ",".join(bad_fns) if bad_fns else "")) + (" [clause: " + clause[:300] + "]" if clause else ""),
+                                      "loc": loc, "raw": blk[:1500], "clause": clause, "tags": tags})
                 if not fails:
                     fails.append({"desc": "verus reported errors in " + ",".join(bad_fns), "loc": "", "raw": stderr[-1500:]})
                 row["failed_obligations"] = fails
